@@ -21,6 +21,11 @@ the template is untouched whether or not encode refuses them.  drv_binding
 offers the same placeholder object to fields repeatedly (after a refusal, after
 an acceptance, to another field) and changes placeholders after binding: a
 template that exists afterwards must decode every DNA to an accepted value.
+
+drv_partial_and_refs covers template members that are neither constants nor
+placeholders: partial objects (unfilled required fields hold typed missing
+values), pg.Ref members (the referenced object is neither copied into nor moved
+under the decoded value) and values inferred from the parent chain.
 """
 import datetime
 import itertools
@@ -118,9 +123,70 @@ class WE(pg.Object):
     return 0
 
 
-IMPORT = 'from bounded.c13_hyper import A, A2, B, IntSeq, nt, SC, NE, WE\n'
+# Classes with REQUIRED fields, used to build PARTIAL objects (Cls.partial(..)):
+# an unfilled required field holds a typed missing value.  Partial objects are
+# ordinary members of templates (placeholders in their filled fields, constant
+# siblings, candidates).
+
+
+class PP(pg.Object):
+  f: pg.typing.Int()
+  k: pg.typing.Any()
+  d: pg.typing.Int(default=3)
+
+
+class PN(pg.Object):
+  """Required fields of three kinds: Any, nested dict schema, object."""
+  k: pg.typing.Any()
+  n: pg.typing.Dict([('u', pg.typing.Int()), ('w', pg.typing.Int(default=1))])
+  o: pg.typing.Object(PP)
+
+
+@pg.functor()
+def PF(a, b, c=1):
+  """Functor: partially bound by construction."""
+  return (a, b, c)
+
+
+class RO(pg.Object):
+  """Typed field that may hold a pg.Ref to an `A`."""
+  o: pg.typing.Object(A)
+  k: pg.typing.Any(default=None)
+
+
+# Required fields (dotted: key of a nested dict schema) by class: the model's
+# own statement of which fields a partial object may leave unfilled.
+REQ = {PP: ('f', 'k'), PN: ('k', 'n.u', 'o'), PF: ('a', 'b'), SC: ('k',)}
+# Defaults the schema fills in for fields not given (see fill_defaults).
+P_DEFAULTS = {PP: {'d': 3}, PN: {'n': {'w': 1}}, PF: {'c': 1}}
+
+# Targets of pg.Ref members.  SH(i) is memoised so that the template and the
+# expected values of one witness refer to the SAME object (two pg.Ref are equal
+# only if they reference the same object); sh_reset() gives every template
+# fresh targets.
+_SH = {}
+_SH_MAKERS = [
+    lambda: A(x=1, y='s0'),
+    lambda: pg.Dict(q=1),
+    lambda: pg.List([7, 8]),
+]
+
+
+def SH(i):
+  if i not in _SH:
+    _SH[i] = _SH_MAKERS[i]()
+  return _SH[i]
+
+
+def sh_reset():
+  _SH.clear()
+
+
+IMPORT = ('from bounded.c13_hyper import A, A2, B, IntSeq, nt, SC, NE, WE, PP, '
+          'PN, PF, RO, SH\n')
 IMPORT_SV = 'from bounded.c13_hyper import spec_violation\n'
-_O_DEFAULTS = [(A, {'y': None}), (SC, {'m': 0}), (NE, {'m': None})]
+_O_DEFAULTS = [(A, {'y': None}), (SC, {'m': 0}), (NE, {'m': None}),
+               (RO, {'k': None})]
 
 # ---------------------------------------------------------------------------
 # Value-spec descriptors: a small independent model of what a bound value spec
@@ -189,7 +255,8 @@ def s_pg(sd):
 
 
 def _tagged(mv):
-  return isinstance(mv, tuple) and bool(mv) and mv[0] in ('O', 'H', 'R')
+  return isinstance(mv, tuple) and bool(mv) and mv[0] in (
+      'O', 'H', 'R', 'PR', 'INF')
 
 
 def s_accepts_exactly(sd, mv):
@@ -273,9 +340,9 @@ def norm(sd, mv):
     for key, fsd in sd.args:
       if key in mv:
         out[key] = norm(fsd, mv[key])
-      else:
-        assert fsd.default is not NODEF, key
+      elif fsd.default is not NODEF:
         out[key] = fsd.default
+      # else: a required key left unfilled (partial dict): stays missing.
     assert set(mv) <= set(out), mv
     return out
   raise AssertionError(k)
@@ -329,7 +396,22 @@ def _n(x):
 
 
 def D(**kw):
-  return N('d', items=[(k, _n(v)) for k, v in kw.items()], spec=None)
+  return N('d', items=[(k, _n(v)) for k, v in kw.items()], spec=None,
+           plain=False, partial=False)
+
+
+def Dplain(**kw):
+  """A built-in dict (for a dict-typed field of a partial object)."""
+  n = D(**kw)
+  n.plain = True
+  return n
+
+
+def Dpartial(sd, **kw):
+  """pg.Dict.partial(.., value_spec=sd): required keys may be left out."""
+  n = with_spec(D(**kw), sd)
+  n.partial = True
+  return n
 
 
 def L(xs):
@@ -384,6 +466,49 @@ def Ref(*path):
   return N('ref', path=list(path))
 
 
+def PR(i):
+  """pg.Ref(SH(i)): a reference to a shared object outside the template."""
+  return N('pr', target=i)
+
+
+def Inf():
+  """pg.symbolic.ValueFromParentChain(): value inferred from the parents."""
+  return N('inf')
+
+
+_ABSENT = ('<absent>',)
+
+
+def _req_missing(cls, get):
+  """Is a required field of `cls` unfilled?  get(key) -> child, a lookup
+  function (nested dict) or _ABSENT."""
+  for path in REQ.get(cls, ()):
+    keys = path.split('.')
+    cur = get(keys[0])
+    if cur is _ABSENT:
+      return True
+    for k in keys[1:]:
+      cur = cur(k) if callable(cur) else _ABSENT
+      if cur is _ABSENT:
+        return True
+  return False
+
+
+def node_partial(n):
+  """Does the 'o' node (or an object below it) leave a required field out?"""
+  if n.kind == 'o':
+    items = dict(n.items)
+    def get(key):
+      c = items.get(key, _ABSENT)
+      if c is not _ABSENT and c.kind == 'd':
+        sub = dict(c.items)
+        return lambda k: sub.get(k, _ABSENT)
+      return c
+    if _req_missing(n.cls, get):
+      return True
+  return any(node_partial(c) for c in children(n))
+
+
 HYPER = ('one', 'many', 'f', 'cu', 'ev')
 
 
@@ -436,6 +561,10 @@ def signature(root, sel):
       kinds.add('evolvable')
     elif n.kind == 'ref':
       kinds.add('ref')
+    elif n.kind == 'pr':
+      kinds.add('pgref')
+    elif n.kind == 'inf':
+      kinds.add('inferred')
     if n.kind in ('one', 'many'):
       for c in n.cands:
         if any(m.kind in HYPER for m in walk(c)):
@@ -461,12 +590,22 @@ def build(n):
     return n.v
   if k == 'd':
     kw = {} if n.spec is None else {'value_spec': s_pg(n.spec)}
+    if n.plain:
+      return {key: build(c) for key, c in n.items}
+    if n.partial:
+      return pg.Dict.partial({key: build(c) for key, c in n.items}, **kw)
     return pg.Dict({key: build(c) for key, c in n.items}, **kw)
   if k == 'l':
     kw = {} if n.spec is None else {'value_spec': s_pg(n.spec)}
     return pg.List([build(c) for c in n.items], **kw)
   if k == 'o':
+    if n.cls in REQ and node_partial(n):
+      return n.cls.partial(**{key: build(c) for key, c in n.items})
     return n.cls(**{key: build(c) for key, c in n.items})
+  if k == 'pr':
+    return pg.Ref(SH(n.target))
+  if k == 'inf':
+    return pg.symbolic.ValueFromParentChain()
   if k == 'one':
     return pg.oneof([build(c) for c in n.cands], name=n.name)
   if k == 'many':
@@ -489,8 +628,12 @@ def src(n, root=True):
     return lit(n.v)
   if k == 'd':
     args = [f'{key}={src(c, False)}' for key, c in n.items]
+    if n.plain:
+      return 'dict(%s)' % ', '.join(args)
     if n.spec is not None:
       args.append(f'value_spec={s_src(n.spec)}')
+    if n.partial:
+      return 'pg.Dict.partial(%s)' % ', '.join(args)
     return 'pg.Dict(%s)' % ', '.join(args)
   if k == 'l':
     body = '[%s]' % ', '.join(src(c, False) for c in n.items)
@@ -498,8 +641,14 @@ def src(n, root=True):
       return f'pg.List({body}, value_spec={s_src(n.spec)})'
     return f'pg.List({body})' if root else body
   if k == 'o':
-    return '%s(%s)' % (n.cls.__name__, ', '.join(
+    ctor = n.cls.__name__ + (
+        '.partial' if n.cls in REQ and node_partial(n) else '')
+    return '%s(%s)' % (ctor, ', '.join(
         f'{key}={src(c, False)}' for key, c in n.items))
+  if k == 'pr':
+    return f'pg.Ref(SH({n.target}))'
+  if k == 'inf':
+    return 'pg.symbolic.ValueFromParentChain()'
   nm = f', name={n.name!r}' if n.name else ''
   if k == 'one':
     return 'pg.oneof([%s]%s)' % (', '.join(src(c, False) for c in n.cands), nm)
@@ -534,7 +683,8 @@ def where_fn(sel):
 def header(root):
   s = src(root)
   needs = any(t in s for t in ('A(', 'A2(', 'B(', 'IntSeq(', 'nt', 'SC(',
-                               'NE(', 'WE('))
+                               'NE(', 'WE(', 'SC.', 'PP', 'PN', 'PF', 'RO(',
+                               'SH('))
   out = 'import pyglove as pg\n'
   if 'datetime.' in s:
     out += 'import datetime\n'
@@ -592,7 +742,7 @@ def index_tuples(n):
 def msize(n, sel, exact=False):
   """Number of (dna, value) pairs enum() yields.  exact: None if infinite."""
   k = n.kind
-  if k in ('c', 'ref'):
+  if k in ('c', 'ref', 'pr', 'inf'):
     return 1
   if k in ('d', 'l', 'o'):
     t = 1
@@ -653,6 +803,10 @@ def enum(n, sel):
     return [([], n.v)]
   if k == 'ref':
     return [([], ('R', n.path))]
+  if k == 'pr':
+    return [([], ('PR', n.target))]
+  if k == 'inf':
+    return [([], ('INF',))]
   if k == 'd':
     keys = [key for key, _ in n.items]
     return [(dl, dict(zip(keys, vs)))
@@ -698,6 +852,10 @@ def sample(n, sel, rnd):
     return [], n.v
   if k == 'ref':
     return [], ('R', n.path)
+  if k == 'pr':
+    return [], ('PR', n.target)
+  if k == 'inf':
+    return [], ('INF',)
   if k in ('d', 'l', 'o') or (k in ('one', 'many') and not is_sel(n, sel)):
     dl, vs = [], []
     for c in children(n):
@@ -750,7 +908,7 @@ def prim_paths(n, sel, path=''):
       return f'{p}[{key}]'
     return f'{p}.{key}' if p else key
   k = n.kind
-  if k in ('c', 'ref'):
+  if k in ('c', 'ref', 'pr', 'inf'):
     return []
   if k in ('d', 'o'):
     out = []
@@ -859,13 +1017,23 @@ def has_ref(root):
 # ---------------------------------------------------------------------------
 
 
+def is_missing(x):
+  """An unfilled field (typed or untyped missing value)."""
+  return isinstance(x, pg.typing.MissingValue) or x is pg.MISSING_VALUE
+
+
+def present_keys(got):
+  """Keys of a pg.Dict / pg.Object that are filled in."""
+  return [k for k in got.sym_keys() if not is_missing(got.sym_getattr(k))]
+
+
 def same(mv, got, path='$'):
   """Returns None if `got` is exactly the value `mv` prescribes, else text."""
   if isinstance(mv, dict):
     if not isinstance(got, pg.Dict):
       return f'{path}: expected a dict, got {type(got).__name__}'
-    if set(got.sym_keys()) != set(mv.keys()):
-      return f'{path}: keys {list(got.sym_keys())} != {list(mv.keys())}'
+    if set(present_keys(got)) != set(mv.keys()):
+      return f'{path}: keys {present_keys(got)} != {list(mv.keys())}'
     for k, x in mv.items():
       r = same(x, got.sym_getattr(k), f'{path}.{k}')
       if r:
@@ -886,9 +1054,33 @@ def same(mv, got, path='$'):
     if type(got) is not mv[1]:  # pylint: disable=unidiomatic-typecheck
       return f'{path}: expected {mv[1].__name__}, got {type(got).__name__}'
     for k, x in mv[2].items():
+      if not got.sym_hasattr(k):
+        return f'{path}.{k}: field absent'
       r = same(x, got.sym_getattr(k), f'{path}.{k}')
       if r:
         return r
+    if mv[1] in REQ:
+      # Fields the (partial) template leaves unfilled stay unfilled.
+      extra = [k for k in present_keys(got) if k not in mv[2]]
+      if extra:
+        return f'{path}: fields {extra} are filled, the template leaves them out'
+    return None
+  if isinstance(mv, tuple) and mv and mv[0] == 'PR':
+    # A member referencing a shared object: the decoded value holds that
+    # object (by reference, or -- where decode hands out the candidate
+    # itself -- an equal object of the same type).
+    tgt = SH(mv[1])
+    if isinstance(got, (pg.hyper.HyperValue, pg.hyper.DerivedValue)):
+      return f'{path}: placeholder left in decoded value: {got!r}'
+    val = got.value if isinstance(got, pg.Ref) else got
+    if val is tgt:
+      return None
+    if type(val) is not type(tgt) or not pg.eq(val, tgt):  # pylint: disable=unidiomatic-typecheck
+      return f'{path}: {got!r} is not (a reference to) {tgt!r}'
+    return None
+  if isinstance(mv, tuple) and mv and mv[0] == 'INF':
+    if not isinstance(got, pg.symbolic.ValueFromParentChain):
+      return f'{path}: expected the inferred value kept, got {got!r}'
     return None
   if isinstance(mv, tuple) and mv and mv[0] == 'H':
     n = mv[1]
@@ -953,6 +1145,10 @@ def mv_key(mv):
   if isinstance(mv, tuple) and mv and mv[0] == 'H':
     return ('h', mv[1].name) + (
         tuple(mv_key(v) for v in mv[2]) if mv[2] is not None else ())
+  if isinstance(mv, tuple) and mv and mv[0] == 'PR':
+    return pg_key(SH(mv[1]))         # references are transparent
+  if isinstance(mv, tuple) and mv and mv[0] == 'INF':
+    return ('inf',)
   if isinstance(mv, tuple):
     return ('t',) + tuple(mv_key(v) for v in mv)
   return (type(mv).__name__, mv)
@@ -964,12 +1160,17 @@ def pg_key(v):
     if isinstance(v, pg.hyper.Choices):
       return ('h', v.name) + tuple(pg_key(c) for c in v.candidates)
     return ('h', v.name)
+  if isinstance(v, pg.Ref):
+    return pg_key(v.value)
+  if isinstance(v, pg.symbolic.ValueFromParentChain):
+    return ('inf',)
   if isinstance(v, pg.Dict):
-    return ('d',) + tuple((k, pg_key(x)) for k, x in sorted(v.sym_items()))
+    return ('d',) + tuple((k, pg_key(x)) for k, x in sorted(v.sym_items())
+                          if not is_missing(x))
   if isinstance(v, list):
     return ('l',) + tuple(pg_key(x) for x in list.__iter__(v))
   if isinstance(v, pg.Object):
-    items = [(k, pg_key(x)) for k, x in v.sym_items()]
+    items = [(k, pg_key(x)) for k, x in v.sym_items() if not is_missing(x)]
     return ('o', type(v).__name__) + tuple(sorted(items))
   if isinstance(v, tuple):
     return ('t',) + tuple(pg_key(x) for x in v)
@@ -1005,6 +1206,10 @@ def may_overlap(a, b, sel):
     return True
   if ka == 'ref' or kb == 'ref':
     return True
+  if ka == 'inf' or kb == 'inf':
+    return True
+  if ka == 'pr' and kb == 'pr':
+    return a.target == b.target      # the shared targets differ pairwise
   if ka == 'one' and sa:
     return any(may_overlap(c, b, sel) for c in a.cands)
   if kb == 'one' and sb:
@@ -1014,6 +1219,15 @@ def may_overlap(a, b, sel):
   ub = kb in HYPER and not sb
   if ua or ub:
     return ua and ub and ka == kb
+  if ka == 'pr' or kb == 'pr':
+    o = b if ka == 'pr' else a
+    # The targets are symbolic containers / objects: never equal to a leaf
+    # constant or a float; conservatively confusable with anything else.
+    if o.kind == 'f':
+      return False
+    if o.kind == 'c':
+      return isinstance(o.v, (dict, list, pg.Symbolic))
+    return True
   if ka == 'c' and kb == 'c':
     try:
       return bool(a.v == b.v)
@@ -1046,7 +1260,10 @@ def may_overlap(a, b, sel):
       return False
     da, db = dict(a.items), dict(b.items)
     if set(da) != set(db):
-      return True
+      # A required field that one side fills and the other leaves unfilled
+      # tells partial objects apart; otherwise defaults may make them equal.
+      req = {p.split('.')[0] for p in REQ.get(a.cls, ())}
+      return not ((set(da) ^ set(db)) & req)
     return all(may_overlap(da[k], db[k], sel) for k in da)
   if ka == 'c' or kb == 'c':
     c, o = (a, b) if ka == 'c' else (b, a)
@@ -1098,20 +1315,71 @@ def sym_nodes(v, out=None):
   return out
 
 
+def ref_targets(v, out=None):
+  """Objects referenced by pg.Ref members below v (raw traversal)."""
+  if out is None:
+    out = []
+  if isinstance(v, pg.Ref):
+    if isinstance(v.value, pg.Symbolic) and not any(v.value is t for t in out):
+      out.append(v.value)
+  elif isinstance(v, pg.Symbolic):
+    for _, x in v.sym_items():
+      ref_targets(x, out)
+  return out
+
+
+def snap_text(v):
+  """Serialised content of a template value (values holding pg.Ref members
+  have no JSON form: their full symbolic format is used instead)."""
+  if not isinstance(v, pg.Symbolic):
+    return repr(v)
+  try:
+    return pg.to_json_str(v)
+  except TypeError:
+    return pg.format(v, compact=True, verbose=True, hide_default_values=False)
+
+
+class _WitnessRec:
+  """Recorder proxy: witnesses of templates without a JSON form compare the
+  symbolic format instead."""
+
+  def __init__(self, rec):
+    self._rec = rec
+
+  def case(self, case_id, key, ok, message='', witness='', nontrivial=True):
+    if witness:
+      witness = witness.replace('pg.to_json_str(v)', 'snap_text(v)')
+      if 'snap_text' in witness:
+        witness = 'from bounded.c13_hyper import snap_text\n' + witness
+    return self._rec.case(case_id, key, ok, message, witness, nontrivial)
+
+
 class Snapshot:
   """Snapshot of a template value taken before any decode/encode."""
 
   def __init__(self, value):
     self.value = value
-    self.json = pg.to_json_str(value) if isinstance(value, pg.Symbolic) else repr(value)
+    self.json = snap_text(value)
     self.clone = pg.clone(value, deep=True)
     self.text = pg.format(value, compact=True)
     self.nodes = sym_nodes(value)
+    # Objects the template references through pg.Ref members.
+    self.targets = [(t, pg.to_json_str(t), id(t.sym_parent), str(t.sym_path))
+                    for t in ref_targets(value)]
+
+  def diff_targets(self):
+    for t, j, par, path in self.targets:
+      if pg.to_json_str(t) != j:
+        return f'referenced object changed: {j[:120]} -> {pg.to_json_str(t)[:120]}'
+      if id(t.sym_parent) != par or str(t.sym_path) != path:
+        return (f'referenced object {t!r} was re-parented: sym_path '
+                f'{path!r} -> {str(t.sym_path)!r}')
+    return None
 
   def diff_content(self):
     v = self.value
     try:
-      j = pg.to_json_str(v) if isinstance(v, pg.Symbolic) else repr(v)
+      j = snap_text(v)
     except Exception as e:  # pylint: disable=broad-except
       return f'pg.to_json(template) now raises {type(e).__name__}: {e}'
     if j != self.json:
@@ -1137,8 +1405,13 @@ class Snapshot:
 # ---------------------------------------------------------------------------
 
 
-def spec_violation(v, path='$'):
-  """Re-applies every field spec of every pg.Object inside v to its value."""
+def spec_violation(v, path='$', partial=None):
+  """Re-applies every field spec of every pg.Object inside v to its value.
+
+  Unfilled fields of partial objects have no value to accept.
+  """
+  if partial is None:
+    partial = bool(pg.is_partial(v)) if isinstance(v, pg.Symbolic) else False
   if isinstance(v, pg.hyper.HyperPrimitive):
     if isinstance(v, pg.hyper.Choices):
       for i, c in enumerate(v.candidates):
@@ -1148,23 +1421,26 @@ def spec_violation(v, path='$'):
     return None
   if isinstance(v, pg.Object):
     for k, x in v.sym_items():
+      if is_missing(x):
+        continue
       f = v.sym_attr_field(k)
       if f is not None:
         try:
-          f.value.apply(pg.clone(x, deep=True) if isinstance(x, pg.Symbolic) else x)
+          f.value.apply(pg.clone(x, deep=True) if isinstance(x, pg.Symbolic) else x,
+                        allow_partial=partial)
         except Exception as e:  # pylint: disable=broad-except
           return f'{path}.{k}: {type(e).__name__}: {str(e)[:160]}'
-      r = spec_violation(x, f'{path}.{k}')
+      r = spec_violation(x, f'{path}.{k}', partial)
       if r:
         return r
   elif isinstance(v, pg.Dict):
     for k, x in v.sym_items():
-      r = spec_violation(x, f'{path}.{k}')
+      r = spec_violation(x, f'{path}.{k}', partial)
       if r:
         return r
   elif isinstance(v, pg.List):
     for i, x in enumerate(v.sym_values()):
-      r = spec_violation(x, f'{path}[{i}]')
+      r = spec_violation(x, f'{path}[{i}]', partial)
       if r:
         return r
   return None
@@ -1175,13 +1451,64 @@ def spec_violation(v, path='$'):
 # ---------------------------------------------------------------------------
 
 
+def mv_partial(mv):
+  """Does the model value leave a required field of an object unfilled?"""
+  if isinstance(mv, dict):
+    return any(mv_partial(v) for v in mv.values())
+  if isinstance(mv, list):
+    return any(mv_partial(v) for v in mv)
+  if isinstance(mv, tuple) and mv and mv[0] == 'O':
+    def get(key):
+      c = mv[2].get(key, _ABSENT)
+      if isinstance(c, dict):
+        return lambda k: c.get(k, _ABSENT)
+      return c
+    return _req_missing(mv[1], get) or mv_partial(mv[2])
+  return False
+
+
+def _mk_obj(mv, conv):
+  """Object of a model value; a partial one takes built-in dicts for its
+  dict-typed fields (a pg.Dict made beforehand cannot take unfilled keys)."""
+  if mv[1] in REQ and mv_partial(mv):
+    return mv[1].partial(**{
+        k: (to_plain(v) if isinstance(v, dict) else conv(v))
+        for k, v in mv[2].items()})
+  return mv[1](**{k: conv(v) for k, v in mv[2].items()})
+
+
+def fill_defaults(mv):
+  """Model value after the schemas of the classes in P_DEFAULTS filled in
+  the defaults of fields that were not given."""
+  if isinstance(mv, dict):
+    return {k: fill_defaults(v) for k, v in mv.items()}
+  if isinstance(mv, list):
+    return [fill_defaults(v) for v in mv]
+  if isinstance(mv, tuple) and mv and mv[0] == 'O':
+    d = {k: fill_defaults(v) for k, v in mv[2].items()}
+    for k, dv in P_DEFAULTS.get(mv[1], {}).items():
+      if k not in d:
+        d[k] = _copy_mv(dv)
+      elif isinstance(dv, dict) and isinstance(d[k], dict):
+        d[k] = dict(_copy_mv(dv), **d[k])
+    order = [str(k) for k in mv[1].__schema__.fields.keys()]
+    return ('O', mv[1], {k: d[k] for k in order if k in d})
+  if isinstance(mv, tuple) and mv and mv[0] == 'H' and mv[2] is not None:
+    return ('H', mv[1], [fill_defaults(v) for v in mv[2]])
+  return mv
+
+
 def to_pg(mv):
   if isinstance(mv, dict):
     return pg.Dict({k: to_pg(v) for k, v in mv.items()})
   if isinstance(mv, list):
     return pg.List([to_pg(v) for v in mv])
   if isinstance(mv, tuple) and mv and mv[0] == 'O':
-    return mv[1](**{k: to_pg(v) for k, v in mv[2].items()})
+    return _mk_obj(mv, to_pg)
+  if isinstance(mv, tuple) and mv and mv[0] == 'PR':
+    return pg.Ref(SH(mv[1]))
+  if isinstance(mv, tuple) and mv and mv[0] == 'INF':
+    return pg.symbolic.ValueFromParentChain()
   if isinstance(mv, tuple) and mv and mv[0] == 'H':
     n = mv[1]
     if n.kind == 'one':
@@ -1200,7 +1527,7 @@ def to_plain(mv):
   if isinstance(mv, list):
     return [to_plain(v) for v in mv]
   if isinstance(mv, tuple) and mv and mv[0] == 'O':
-    return mv[1](**{k: to_plain(v) for k, v in mv[2].items()})
+    return _mk_obj(mv, to_plain)
   return to_pg(mv)
 
 
@@ -1221,8 +1548,16 @@ def mv_src(mv, root=True, plain=False):
     body = '[%s]' % ', '.join(mv_src(v, False, plain) for v in mv)
     return f'pg.List({body})' if root and not plain else body
   if isinstance(mv, tuple) and mv and mv[0] == 'O':
+    if mv[1] in REQ and mv_partial(mv):
+      return '%s.partial(%s)' % (mv[1].__name__, ', '.join(
+          f'{k}={mv_src(v, False, plain or isinstance(v, dict))}'
+          for k, v in mv[2].items()))
     return '%s(%s)' % (mv[1].__name__, ', '.join(
         f'{k}={mv_src(v, False, plain)}' for k, v in mv[2].items()))
+  if isinstance(mv, tuple) and mv and mv[0] == 'PR':
+    return f'pg.Ref(SH({mv[1]}))'
+  if isinstance(mv, tuple) and mv and mv[0] == 'INF':
+    return 'pg.symbolic.ValueFromParentChain()'
   if isinstance(mv, tuple) and mv and mv[0] == 'H':
     n = mv[1]
     if n.kind == 'one':
@@ -1257,7 +1592,7 @@ def _swap_cls(cls):
 
 def _mv_sites(mv, path=()):
   """(path, node) of every dict / list / object / leaf node (not placeholders)."""
-  if isinstance(mv, tuple) and mv and mv[0] in ('H', 'R'):
+  if isinstance(mv, tuple) and mv and mv[0] in ('H', 'R', 'PR', 'INF'):
     return
   yield path, mv
   if isinstance(mv, dict):
@@ -1323,14 +1658,20 @@ def mutants(mv, rnd, per_class=1):
 
 
 def check_template(rec, root, sel, rnd, cap, deep_checks=6, post=None,
-                   sig=None, foreign_checks=1):
+                   sig=None, foreign_checks=1, esig=None, labels=None):
   """Checks every clause of C13 on one template (+ optional where filter).
 
   post: model value -> model value prescribed after the bound value specs
-  accepted it (see `norm`); sig: input-class part of the case ids.
+  accepted it (see `norm`); sig: input-class part of the case ids; esig: the
+  id of the encode cases, if the template belongs to an input class of encode
+  of its own; labels: which values are encoded (default: all of 'decoded',
+  'built', 'plain').
   """
   sig = sig or signature(root, sel)
   vsrc = src(root)
+  if any(n.kind == 'pr' for n in walk(root)):
+    sh_reset()                        # fresh reference targets
+    rec = _WitnessRec(rec)
   pre = header(root) + f'v = {vsrc}\nt = pg.template(v{where_src(sel)})\n'
   key0 = (vsrc, None if sel is None else tuple(sorted(sel)))
 
@@ -1376,12 +1717,13 @@ def check_template(rec, root, sel, rnd, cap, deep_checks=6, post=None,
   # Own id for: `where` keeps a placeholder that sits inside a candidate of a
   # selected choice (encode consults the unfiltered template there).
   esig = 'where-unselected-inside-selected-choice' if (
-      unselected_below_selected_choice(root, sel)) else sig
+      unselected_below_selected_choice(root, sel)) else (esig or sig)
   # Evolvables encode any value; the known `where` defect has its own id.
   foreign_ok = esig is sig and not any(
       n.kind == 'ev' and is_sel(n, sel) for n in walk(root))
 
   seen = {}
+  tgt_ok = True
   for idx, (dl, mv) in enumerate(pairs):
     dn = tmpl(dl)
     dsrc = dna_src(dn)
@@ -1446,6 +1788,17 @@ def check_template(rec, root, sel, rnd, cap, deep_checks=6, post=None,
       df = snap.diff()
       rec.case(f'decode.template-unchanged/{sig}', key, df is None, df,
                wpre + 'j = pg.to_json_str(v); t.decode(d); assert pg.to_json_str(v) == j')
+    if snap.targets:
+      # The objects the template references stay as they are (content and
+      # place: a referenced object is not moved into the decoded value).
+      df = snap.diff_targets()
+      tgt_ok = df is None
+      rec.case(f'decode.ref-target-unchanged/{sig}', key, df is None, df,
+               wpre + 'from bounded.c13_hyper import ref_targets\n'
+               'ts = [(x, x.sym_parent, str(x.sym_path)) for x in ref_targets(v)]\n'
+               't.decode(d)\n'
+               'assert all(x.sym_parent is p and str(x.sym_path) == q '
+               'for x, p, q in ts), [x.sym_path for x, _, _ in ts]')
 
     # decode twice
     try:
@@ -1479,6 +1832,8 @@ def check_template(rec, root, sel, rnd, cap, deep_checks=6, post=None,
         continue
       if label == 'plain' and not (deep and mv_has_container(mv)):
         continue
+      if labels is not None and label not in labels:
+        continue
       try:
         val = val_fn()
         enc = t.encode(val)
@@ -1509,6 +1864,16 @@ def check_template(rec, root, sel, rnd, cap, deep_checks=6, post=None,
         rec.case(f'encode.template-unchanged/{sig}', key, df is None, df,
                  wpre + f'x = {vs_}; j = pg.to_json_str(v); t.encode(x); '
                  'assert pg.to_json_str(v) == j')
+      if snap.targets and tgt_ok:
+        df = snap.diff_targets()
+        tgt_ok = df is None
+        rec.case(f'encode.ref-target-unchanged/{sig}', key, df is None, df,
+                 wpre + 'from bounded.c13_hyper import ref_targets\n'
+                 f'x = {vs_}\n'
+                 'ts = [(y, y.sym_parent, str(y.sym_path)) for y in ref_targets(v)]\n'
+                 't.encode(x)\n'
+                 'assert all(y.sym_parent is p and str(y.sym_path) == q '
+                 'for y, p, q in ts), [y.sym_path for y, _, _ in ts]')
 
     if deep:
       # __call__ path and pg.materialize agree with decode.
@@ -1841,6 +2206,9 @@ def check_iter(rec, root, sel, total, seed, sample, post=None, sig=None,
   pre = header(root) + f'v = {vsrc}\n'
   wsrc = where_src(sel)
   try:
+    if any(n.kind == 'pr' for n in walk(root)):
+      sh_reset()
+      rec = _WitnessRec(rec)
     v = build(root)
     snap = Snapshot(v)
     pairs = enum(root, sel)
@@ -2247,6 +2615,281 @@ def drv_candidate_kinds(tier, seed):
     except Exception as e:  # pylint: disable=broad-except
       rec.case('harness/' + sig, src(root), False,
                f'harness error {type(e).__name__}: {e}', src(root))
+  return rec.result()
+
+
+# ---------------------------------------------------------------------------
+# Driver 2d: members of templates that are neither constants nor placeholders:
+#   * PARTIAL objects -- Cls.partial(..), partially bound functors,
+#     pg.Dict.partial(value_spec=..), a dict-typed field with an unfilled key:
+#     their unfilled required fields hold (typed) missing values.  They are
+#     ordinary template members (a placeholder in a filled field, constant
+#     siblings of placeholders, oneof / manyof candidates), and candidates that
+#     fill different required fields are distinguishable;
+#   * pg.Ref members -- references to objects outside the template, in dict
+#     fields, object fields, list items, as candidates and inside candidates:
+#     the decoded value holds the referenced object, which itself is neither
+#     changed nor moved;
+#   * values inferred from the parent chain (pg.symbolic.ValueFromParentChain)
+#     next to placeholders: they are not placeholders of the space.
+# ---------------------------------------------------------------------------
+
+S_TD = S('dict', ('a', S('int')), ('b', S_ANY), ('e', S_ANY))
+
+
+def partial_kinds():
+  """kind -> holes: (factory of the partial object around a placeholder h, h
+  must be int-valued); const: constant partial object c(i); cands: five
+  pairwise distinguishable constant candidates; labels: see check_template."""
+  K = {}
+  K['object'] = dict(
+      holes=[(lambda h: O(PP, k=h), False), (lambda h: O(PP, f=h), True),
+             (lambda h: O(PP, k=h, d=4), False)],
+      const=lambda i: O(PP, k=i),
+      cands=[lambda: O(PP, k=1), lambda: O(PP, f=1), lambda: O(PP, f=1, k=1),
+             lambda: O(PP, k=2), lambda: O(PP)],
+      labels=None)
+  K['object-nested'] = dict(
+      holes=[(lambda h: O(PN, k=h), False),
+             (lambda h: O(PN, k=1, n=Dplain(w=h)), True),
+             (lambda h: O(PN, k=0, o=O(PP, k=h)), False),
+             (lambda h: O(PN, n=Dplain(u=h), o=O(PP, f=2, k=3)), True)],
+      const=lambda i: O(PN, k=i),
+      cands=[lambda: O(PN, k=1), lambda: O(PN, k=1, n=Dplain(u=5)),
+             lambda: O(PN, k=1, o=O(PP, k=1)), lambda: O(PN, k=2),
+             lambda: O(PN, o=O(PP, f=1, k=1))],
+      labels=None)
+  K['functor'] = dict(
+      holes=[(lambda h: O(PF, a=h), False), (lambda h: O(PF, b=h, c=2), False)],
+      const=lambda i: O(PF, a=i),
+      cands=[lambda: O(PF, a=1), lambda: O(PF, b=1), lambda: O(PF, a=1, b=1),
+             lambda: O(PF, a=2), lambda: O(PF)],
+      labels=None)
+  K['symbolized-class'] = dict(
+      holes=[(lambda h: O(SC, m=h), False)],
+      const=lambda i: O(SC, m=i),
+      cands=[lambda: O(SC, m=1), lambda: O(SC, k=1, m=1), lambda: O(SC, m=2),
+             lambda: O(SC, k=2, m=1), lambda: O(SC, k=1, m=2)],
+      labels=None)
+  # An untyped dict without the unfilled key is not equal to the typed partial
+  # dict: only the decoded value itself is encoded.
+  K['typed-dict'] = dict(
+      holes=[(lambda h: Dpartial(S_TD, b=h), False),
+             (lambda h: Dpartial(S_TD, a=h, e=0), True)],
+      const=lambda i: Dpartial(S_TD, b=i),
+      cands=[lambda: Dpartial(S_TD, b=1), lambda: Dpartial(S_TD, a=1),
+             lambda: Dpartial(S_TD, a=1, b=1), lambda: Dpartial(S_TD, b=2),
+             lambda: Dpartial(S_TD, a=1, b=1, e=1)],
+      labels=('decoded',),
+      # A partial pg.Dict is refused by Any-typed fields (object fields,
+      # candidate lists): it can only sit in untyped dicts / lists.
+      containers_only=True)
+  return K
+
+
+def partial_templates(tier, seed):
+  """Yields (root factory, sig, labels, with_where)."""
+  quick = tier == 'quick'
+  ctxs = [c for c in contexts() if c[0] != 'ref']
+  for ki, (kind, K) in enumerate(partial_kinds().items()):
+    sig = lambda placement, kind=kind: f'partial-{kind}.{placement}'
+    lab = K['labels']
+    c = K['const']
+    cs = K['cands']
+    n = seed + ki
+    conly = K.get('containers_only', False)
+    # (1) a placeholder in a filled field of the partial object.
+    hs_any = [lambda: One([1, 2]), lambda: One([1, One([2, 3])]),
+              lambda: Many(2, [1, 2, 3]), lambda: F(0.0, 1.0), lambda: Cu(2),
+              lambda: Many(2, [4, 5], False, True)]
+    hs_int = [lambda: One([1, 2]), lambda: One([1, One([2, 3])])]
+    for hi, (hole, int_only) in enumerate(K['holes']):
+      hs = hs_int if int_only else hs_any
+      for ci, (cname, ctx) in enumerate(ctxs):
+        if conly and cname in ('object', 'deep'):
+          continue
+        for pi, h in enumerate(hs):
+          # quick: per hole the plain oneof at the root, and a rotating
+          # quarter of the contexts with one (rotating) placeholder kind each.
+          if quick and not (pi == 0 and cname == 'root') and (
+              (ci + hi + n) % 4 or (pi + ci // 4 + hi + n) % len(hs)):
+            continue
+          if not quick and (pi + ci + hi + n) % 2 and cname not in ('root', 'dict'):
+            continue
+          yield ((lambda ctx=ctx, hole=hole, h=h: ctx(hole(h()), None)),
+                 sig('placeholder-in-filled-field'), lab,
+                 cname in ('two', 'three'))
+    # (2) partial objects as constant siblings of placeholders.
+    yield (lambda c=c: D(u=One([1, 2]), v=c(1)), sig('constant-sibling'), lab, False)
+    yield (lambda c=c: L([c(1), F(0.0, 1.0), c(2)]), sig('constant-sibling'), lab, False)
+    if conly:
+      yield (lambda c=c: D(u=One([D(p=1, q=One([1, 2])), 3]), w=L([c(1)])),
+             sig('constant-sibling'), lab, True)
+      continue
+    yield (lambda c=c: O(A, x=One([1, 2]), y=c(1)), sig('constant-sibling'), lab, False)
+    yield (lambda c=c: D(u=One([D(p=c(1), q=One([1, 2])), 3])),
+           sig('constant-sibling'), lab, False)
+    # (3) constant candidates: same / different sets of unfilled fields, in
+    # both orders, next to non-object candidates.
+    cc = sig('const-candidates')
+    yield (lambda cs=cs: One([cs[0](), cs[3]()]), cc, lab, False)
+    yield (lambda cs=cs: D(z=One([cs[3](), cs[0]()])), cc, lab, False)
+    yield (lambda cs=cs: D(z=One([cs[0](), cs[1](), cs[2]()])), cc, lab, False)
+    if not quick or n % 2:
+      yield (lambda cs=cs: L([One([cs[2](), cs[1](), cs[0]()])]), cc, lab, False)
+      yield (lambda cs=cs: D(z=One([cs[4](), cs[0](), cs[2]()])), cc, lab, False)
+    if not quick or n % 2 == 0:
+      yield (lambda cs=cs: D(z=One([cs[0](), 'z', None, cs[4]()])), cc, lab, False)
+      yield (lambda cs=cs: D(z=One([One([cs[1](), cs[0]()]), cs[2]()])), cc, lab, False)
+    for distinct in (True, False):
+      for srt in (False, True):
+        if quick and (distinct + 2 * srt + n) % 2:
+          continue
+        yield ((lambda d=distinct, s_=srt, cs=cs: D(z=Many(
+            2, [cs[0](), cs[1](), cs[2]()], d, s_))),
+               sig('manyof-candidates'), lab, False)
+    yield (lambda cs=cs: Many(2, [cs[3](), cs[0](), cs[4]()]),
+           sig('manyof-candidates'), lab, False)
+    # (4) candidates that are partial and hold placeholders themselves.
+    hole = K['holes'][0][0]
+    nc = sig('nonconst-candidates')
+    yield (lambda hole=hole, cs=cs: D(z=One([hole(One([1, 2])), cs[1]()])), nc, lab, True)
+    yield (lambda hole=hole, cs=cs: One([cs[2](), hole(One([1, One([2, 3])]))]), nc, lab, False)
+    yield (lambda hole=hole, cs=cs: D(z=Many(2, [hole(One([1, 2])), cs[1](), 'q'], False, False)),
+           nc, lab, True)
+
+
+def ref_templates(tier, seed):
+  """Yields (root factory, sig, esig, with_where)."""
+  del tier, seed
+  IN_DICT = 'pgref-in-dict-field'
+  # (1) a reference held by a dict field (own input class of encode).
+  yield (lambda: D(x=One([1, 2]), r=PR(0)), 'pgref.in-dict-field', IN_DICT, False)
+  yield (lambda: D(x=One([1, 2]), r=PR(1)), 'pgref.in-dict-field', IN_DICT, False)
+  yield (lambda: L([D(r=PR(0), x=F(0.0, 1.0))]), 'pgref.in-dict-field', IN_DICT, False)
+  yield (lambda: O(A, x=1, y=D(x=Many(2, [1, 2, 3]), r=PR(2))),
+         'pgref.in-dict-field', IN_DICT, False)
+  yield (lambda: L([One([D(r=PR(0)), 1])]), 'pgref.in-dict-field', IN_DICT, False)
+  yield (lambda: One([D(r=PR(0), s=One([1, 2])), 'z']), 'pgref.in-dict-field',
+         IN_DICT, False)
+  # (2) ... by an object field (Any-typed and Object-typed).
+  s = 'pgref.in-object-field'
+  yield (lambda: O(A, x=One([1, 2]), y=PR(0)), s, None, False)
+  yield (lambda: D(a=O(A, x=One([1, 2]), y=PR(1)), b=F(0.0, 1.0)), s, None, True)
+  yield (lambda: L([O(A, x=3, y=PR(2)), Many(2, [1, 2, 3], True, True)]), s, None, False)
+  yield (lambda: O(RO, o=PR(0), k=One([1, 2])), s, None, False)
+  yield (lambda: O(NE, k=PR(1), m=One(['u', 'v'])), s, None, False)
+  # (3) ... by a list item.
+  s = 'pgref.in-list'
+  yield (lambda: L([One([1, 2]), PR(0)]), s, None, False)
+  yield (lambda: D(a=L([PR(1), One([1, 2]), PR(0)])), s, None, False)
+  yield (lambda: O(A, x=One([1, 2]), y=L([PR(2)])), s, None, False)
+  yield (lambda: D(a=L([L([PR(0)]), Cu(2)]), b=One([1, One([2, 3])])), s, None, True)
+  # (4) a reference as a candidate.
+  s = 'pgref.as-candidate'
+  yield (lambda: One([PR(0), PR(1), 1]), s, None, False)
+  yield (lambda: D(a=One([PR(0), PR(1), 1])), s, None, False)
+  yield (lambda: L([One([2, PR(2)]), One([PR(0), 'x'])]), s, None, False)
+  yield (lambda: O(A, x=1, y=One([PR(1), PR(0)])), s, None, False)
+  yield (lambda: D(a=One([One([PR(0), PR(2)]), 3])), s, None, False)
+  for distinct in (True, False):
+    for srt in (False, True):
+      yield ((lambda d=distinct, s_=srt: D(z=Many(2, [PR(0), PR(1), 1], d, s_))),
+             s, None, False)
+  yield (lambda: Many(2, [PR(0), PR(1), PR(2)]), s, None, False)
+  # (5) references inside container / object candidates.
+  s = 'pgref.inside-candidate'
+  yield (lambda: D(a=One([L([PR(0)]), L([PR(1)])])), s, None, False)
+  yield (lambda: One([L([PR(0), One([1, 2])]), L([PR(1), 3])]), s, None, False)
+  yield (lambda: D(a=One([O(A, x=1, y=PR(0)), O(A, x=2, y=PR(1))])), s, None, False)
+  yield (lambda: D(a=Many(2, [O(A, x=1, y=PR(0)), O(A2, x=1, y=PR(0)),
+                             L([PR(0)])])), s, None, False)
+  # Candidates that differ only in the object a field of theirs references.
+  s = 'pgref.inside-candidate'
+  e = 'pgref-object-candidates-differing-in-referenced-object'
+  yield (lambda: D(a=One([O(A, x=1, y=PR(0)), O(A, x=1, y=PR(1))])), s, e, False)
+  yield (lambda: One([O(NE, k=PR(2), m=1), O(NE, k=PR(0), m=1)]), s, e, False)
+  yield (lambda: D(a=Many(2, [O(A, x=1, y=PR(0)), O(A, x=1, y=PR(1)),
+                             O(A, x=1, y=PR(2))])), s, e, False)
+
+
+def inferred_templates():
+  """Yields (root factory, sig, esig)."""
+  s = 'inferred.in-object-field'
+  yield lambda: D(y=One([1, 2]), a=O(A, x=1, y=Inf())), s, None
+  yield lambda: D(y=F(0.0, 1.0), a=L([O(A, x=One([1, 2]), y=Inf())])), s, None
+  yield lambda: D(y='c', a=O(A, x=One([1, 2]), y=Inf())), s, None
+  s = 'inferred.in-dict-field'
+  yield lambda: D(y='c', x=One([1, 2]), a=D(y=Inf())), s, 'inferred-in-dict-field'
+  yield (lambda: L([D(y=D(q=1), a=D(y=Inf(), z=F(0.0, 1.0)))]), s,
+         'inferred-in-dict-field')
+  # ... where the value it is inferred from is a placeholder itself.
+  s = 'inferred.in-dict-field-from-placeholder'
+  yield lambda: D(y=One([1, 2]), a=D(y=Inf())), s, None
+  yield lambda: D(y=Many(2, [1, 2, 3]), a=L([D(y=Inf(), z=One([1, 2]))])), s, None
+
+
+def drv_partial_and_refs(tier, seed):
+  cap = 8 if tier == 'quick' else 30
+  rec = Recorder(
+      'C13', 'decode/encode/iter of templates holding partial objects, pg.Ref '
+      'members and inferred values next to placeholders (vs reference model)',
+      scope='partial objects of 5 kinds (pg.Object with unfilled required '
+      'fields; unfilled object-typed field / key of a dict-typed field / '
+      'partial inside partial; partially bound functor; pg.symbolize-d class; '
+      'pg.Dict.partial with value_spec) x placements (placeholder oneof / '
+      'nested oneof / manyof / floatv / custom in a filled field, in 9 '
+      'contexts; constant sibling; constant candidates with equal / different '
+      'unfilled fields in both orders; manyof 4 modes; non-constant '
+      'candidates); pg.Ref to 3 shared targets (object, dict, list) in dict '
+      'fields, object fields (Any / Object typed), list items, as oneof / '
+      'manyof candidates, inside list / object candidates; '
+      'ValueFromParentChain in object / dict fields; `where` subsets; '
+      f'all DNAs if <= {cap} else {cap} random; quick: a rotating subset of '
+      'placeholder kind x context')
+  rnd = rng(seed, 'c13-partial')
+  quick = tier == 'quick'
+
+  def run(mk, sig, post, esig, labels, with_where, n):
+    root = None
+    try:
+      root = assign_names(mk())
+      sels = [None]
+      if with_where:
+        sels += where_variants(root, rnd, 1 if quick else 3)
+      for sel in sels:
+        res = check_template(rec, root, sel, rnd, cap,
+                             deep_checks=2 if quick else 4, post=post, sig=sig,
+                             esig=esig, labels=labels,
+                             foreign_checks=(n % 3 == 0) if quick else 2)
+        if res is None:
+          continue                     # no template / specification at all
+        total = msize(root, sel)
+        if (not quick or n % 4 == 0) and total <= 40 and prim_paths(root, sel) and (
+            only_custom_infinite(root, sel)) and not (
+                unselected_below_selected_choice(root, sel)):
+          check_iter(rec, root, sel, total, seed, n % 6 == 0, post=post,
+                     sig=sig, quick=quick)
+    except Exception as e:  # pylint: disable=broad-except
+      rec.case('harness/' + sig, src(root) if root is not None else sig, False,
+               f'harness error {type(e).__name__}: {e}',
+               src(root) if root is not None else sig)
+
+  n = 0
+  with warnings.catch_warnings():
+    warnings.simplefilter('ignore')
+    for mk, sig, labels, ww in partial_templates(tier, seed):
+      run(mk, sig, fill_defaults, None, labels, ww, n)
+      n += 1
+    # (Only the decoded value is encoded: whether a value holding the object
+    # itself equals one holding a reference to it is not what C13 is about.)
+    for mk, sig, esig, ww in ref_templates(tier, seed):
+      run(mk, sig, None, esig, ('decoded',), ww, n)
+      n += 1
+    for mk, sig, esig in inferred_templates():
+      run(mk, sig, None, esig, ('decoded',), False, n)
+      n += 1
+  sh_reset()
   return rec.result()
 
 
@@ -2723,7 +3366,8 @@ def drv_decode_invalid(tier, seed):
 
 
 DRIVERS = [drv_decode_encode, drv_iter, drv_typed_roundtrip,
-           drv_candidate_kinds, drv_binding, drv_decode_invalid]
+           drv_candidate_kinds, drv_partial_and_refs, drv_binding,
+           drv_decode_invalid]
 
 
 def replay(rec):
